@@ -199,6 +199,48 @@ theorem apply_never_panics (p : Patch) (mx mc : List (String × V)) (only : List
     · exact applyCombine_np p _ mx
     · simp
 
+/-! ### transforms agree with their documented meaning: clamps -/
+
+/-- "ClampMax makes sure that the value is not bigger than the given value": for every int64 input
+the result is the input when it is within the bound and the bound otherwise. -/
+theorem clamp_max_int (o : Orc) (m : MathCfg) (mx i : Int) (ht : m.type = "ClampMax") (hm : m.clampMax = some mx) :
+    resolveMath o m (.num i) = .ok (.num (if i > mx then mx else i)) ∧ (if i > mx then mx else i) ≤ mx := by
+  constructor
+  · simp only [resolveMath, MathCfg.valid, MathCfg.getType, ht, hm]
+    split <;> simp_all <;> split <;> rfl
+  · split <;> omega
+
+/-- "ClampMin makes sure that the value is not smaller than the given value". -/
+theorem clamp_min_int (o : Orc) (m : MathCfg) (mn i : Int) (ht : m.type = "ClampMin") (hm : m.clampMin = some mn) :
+    resolveMath o m (.num i) = .ok (.num (if i < mn then mn else i)) ∧ mn ≤ (if i < mn then mn else i) := by
+  constructor
+  · simp only [resolveMath, MathCfg.valid, MathCfg.getType, ht, hm]
+    split <;> simp_all <;> split <;> rfl
+  · split <;> omega
+
+/-- For a float64 input the comparison itself is library behaviour (the oracle's `gtMax` is
+`f > float64(clampMax)`); the model fixes what is done with the verdict: the bound when the
+input exceeds it, the input unchanged otherwise – no truncation in between. -/
+theorem clamp_max_float (o : Orc) (m : MathCfg) (mx : Int) (r : String) (gt : Bool)
+    (ht : m.type = "ClampMax") (hm : m.clampMax = some mx)
+    (ho : orcVal o (.flt r) "gtMax" = .ok (.bool gt)) :
+    resolveMath o m (.flt r) = .ok (if gt then .num mx else .flt r) := by
+  simp only [resolveMath, MathCfg.valid, MathCfg.getType, ht, hm, ho]
+  cases gt <;> simp
+
+theorem clamp_min_float (o : Orc) (m : MathCfg) (mn : Int) (r : String) (lt : Bool)
+    (ht : m.type = "ClampMin") (hm : m.clampMin = some mn)
+    (ho : orcVal o (.flt r) "ltMin" = .ok (.bool lt)) :
+    resolveMath o m (.flt r) = .ok (if lt then .num mn else .flt r) := by
+  simp only [resolveMath, MathCfg.valid, MathCfg.getType, ht, hm, ho]
+  cases lt <;> simp
+
+/-- The code at the pinned commit truncates the float to int64 before comparing: 2.9 (truncated
+to 2) passes a ClampMax of 2 unchanged although 2.9 > 2 – defect D17
+(corpus/C10/d17-float-clamp.jsonl, fixes/D17.diff). -/
+theorem clamp_float_fails_on_unfixed_witness :
+    (clampMaxFloatUnfixed 2 2 (.flt "2.9") == .flt "2.9") = true := by decide
+
 /-! ### conversions round-trip -/
 
 /-- int64 → string → int64 is the identity on every int64 (decimal printing and parsing modelled;
